@@ -65,8 +65,8 @@ BOUNDS = {
     "thorough": dict(MaxLen=4, Vals=set(range(1, 6)), BinSizes={1, 2, 3}, NBinSet={1, 2, 3, 4}, NPerSet={1, 2, 3, 4, 5},
                      MinVals={0, 2}, MaxVals={4, 7}, TMaxLen=4, TVals={1, 2, 4}, TYVals={0, 3}, TWts={1, 4}),
 }
-INVARIANTS = ["MechRefines", "MergeRefines", "MergeSafe", "ByNumSane", "MomentsSane"]
-ACTIONS = ["ChooseData", "ChooseSpec", "ChooseX", "ChooseYW", "HistPass", "NumPass", "NumConvert", "NumMerge", "NumKeep",
+INVARIANTS = ["MechRefines", "MergeRefines", "MergeSafe", "ByNumSane", "MomentsSane", "RepDesignCovers", "RepCarriesNoValue"]
+ACTIONS = ["ChooseData", "ChooseSpec", "ChooseX", "ChooseYW", "ChooseRepData", "ChooseRep", "HistPass", "NumPass", "NumConvert", "NumMerge", "NumKeep",
            "CalcStats", "Assemble"]
 
 PLAIN = ("mean", "var", "err2", "med")
@@ -81,11 +81,65 @@ def _su():
 
 
 # ---- abstract <-> concrete -------------------------------------------------------------------
-def concretise(c, k):
+# representations of an array argument (BinStatsMC.tla: RepSeq); none of them changes a value
+REPS = ["f8", "f8be", "f4", "f4be", "i4", "i8", "i4be", "u1", "list", "strided", "reversed", "recfield", "scalar"]
+_REPDT = {"f8be": ">f8", "f4": "<f4", "f4be": ">f4", "i4": "<i4", "i8": "<i8", "i4be": ">i4", "u1": "u1"}
+NATIVE = {"x": "f8", "y": "f8", "w": "f8"}
+
+
+def represent(a, rep):
+    """exact float64 values (1-d) -> the object handed to esutil, or None if `rep` cannot hold the values exactly"""
+    if rep == "f8":
+        return a.copy()
+    if rep in _REPDT:
+        with np.errstate(all="ignore"):
+            r = a.astype(_REPDT[rep])
+        return r if np.array_equal(r.astype("f8"), a) else None
+    if rep == "list":
+        return [float(v) for v in a]
+    if rep == "strided":
+        return np.repeat(a, 2)[::2]
+    if rep == "reversed":
+        return a[::-1].copy()[::-1]
+    if rep == "recfield":                      # field of a packed record array: itemsize 12, unaligned doubles
+        rec = np.zeros(a.size, dtype=[("v", "<f8"), ("t", "<i4")])
+        rec["v"] = a
+        rec["t"] = 7
+        return rec["v"]
+    if rep == "scalar":                        # 0-d array for a single value, else a tuple of numpy scalars
+        return np.array(a[0]) if a.size == 1 else tuple(np.float64(v) for v in a)
+    raise MachineryError("unknown representation %r" % (rep,))
+
+
+def lattice(c, k):
+    """effective lattice of the case: CONC[k], but a variable whose representation cannot hold the lattice values
+    exactly (float32 / integers / unsigned with a fractional unit, a negative or a huge offset) falls back to the
+    plain integers (unit 1, offset 0).  -> dict(unit, off, yunit, yoff, wunit, dt, ydt)"""
     unit, off, wunit, dt, yunit, yoff, ydt = CONC[k]
-    x = np.array([(v + off) * unit for v in c["x"]], dtype=dt)
-    y = np.array([(v + yoff) * yunit for v in c["y"]], dtype=ydt)
-    w = np.array([v * wunit for v in c["w"]], dtype=dt) if c["w"] else None
+    rep = c.get("rep", NATIVE)
+    lims = ([c["min"]] if c["hasmin"] else []) + ([c["max"]] if c["hasmax"] else [])
+    ok = lambda vals, u, o, r: represent(np.array([(v + o) * u for v in vals], dtype="f8"), r) is not None      # noqa
+    if not ok(c["x"], unit, off, rep["x"]):
+        unit, off, dt = 1.0, 0, "f8"
+    if not ok(c["y"], yunit, yoff, rep["y"]):
+        yunit, yoff, ydt = 1.0, 0, "f8"
+    if c["w"] and not ok([v for v in c["w"]], wunit, 0, rep["w"]):
+        wunit = 1.0
+    return dict(unit=unit, off=off, wunit=wunit, dt=dt, yunit=yunit, yoff=yoff, ydt=ydt)
+
+
+def concretise(c, L):
+    rep = c.get("rep", NATIVE)
+    unit, off = L["unit"], L["off"]
+
+    def mk(vals, u, o, dt, r):
+        a = np.array([(v + o) * u for v in vals], dtype="f8")
+        if r == "f8":                            # the "native" slot keeps the lattice's own element type (f8 / i8 / f4)
+            return a.astype(dt)
+        return represent(a, r)
+    x = mk(c["x"], unit, off, L["dt"], rep["x"])
+    y = mk(c["y"], L["yunit"], L["yoff"], L["ydt"], rep["y"])
+    w = mk(c["w"], L["wunit"], 0, L["dt"], rep["w"]) if c["w"] else None
     kw = {}
     if c["mode"] == "binsize":
         kw["binsize"] = c["b"] * unit
@@ -101,12 +155,15 @@ def concretise(c, k):
     return x, y, w, kw
 
 
-def warmup_kw(c, k):
+def warmup_kw(c, L):
     """a different bin specification, run first on a re-used Binner"""
-    unit = CONC[k][0]
     if c["mode"] == "nperbin":
-        return {"binsize": 2 * unit}
+        return {"binsize": 2 * L["unit"]}
     return {"nperbin": 2, "mergelast": True}
+
+
+def snapshot(a):
+    return a.tobytes() if isinstance(a, np.ndarray) else repr(a)
 
 
 def variants(c, i):
@@ -122,12 +179,12 @@ def variants(c, i):
     return vs
 
 
-def raw_call(c, k, p, engine):
+def raw_call(c, L, p, engine):
     """one call of the real code -> (dictionary | exception, frame_ok)"""
     su = _su()
-    x, y, w, kw = concretise(c, k)
+    x, y, w, kw = concretise(c, L)
     args = [a for a in (x, y, w) if a is not None]
-    before = [a.tobytes() for a in args]
+    before = [snapshot(a) for a in args]
     saved = su.have_chist
     su.have_chist = (engine == "c") and saved
     try:
@@ -143,7 +200,7 @@ def raw_call(c, k, p, engine):
                     b = su.Binner(x, y=y if p["hasy"] else None, weights=w if p["hasw"] else None)
                     if p["reuse"]:
                         try:
-                            b.dohist(**warmup_kw(c, k))
+                            b.dohist(**warmup_kw(c, L))
                         except ValueError:
                             pass
                     if p["split"]:
@@ -156,7 +213,7 @@ def raw_call(c, k, p, engine):
         res = e
     finally:
         su.have_chist = saved
-    return res, all(a.tobytes() == bb for a, bb in zip(args, before))
+    return res, all(snapshot(a) == bb for a, bb in zip(args, before))
 
 
 def caps(c):
@@ -180,8 +237,8 @@ def effective_conc(c, k):
     return k if k < NBASE or fits_interval(c) else k % NBASE
 
 
-def scales(c, k):
-    unit, off, wunit, _, yunit, yoff, _ = CONC[k]
+def scales(c, L):
+    unit, off, wunit, yunit, yoff = L["unit"], L["off"], L["wunit"], L["yunit"], L["yoff"]
     lims = ([c["min"]] if c["hasmin"] else []) + ([c["max"]] if c["hasmax"] else [])
     s1x = max([abs(v + off) for v in c["x"] + lims] + [1])
     s1y = max([abs(v + yoff) for v in c["y"]] + [1])
@@ -235,7 +292,7 @@ def big_real(obs, S, D, cap, unit, off=0, square=False, sentinel=None):
     return {"k": "ivl", "n": max(math.floor(lo * IVL_K), -bound * IVL_K), "d": min(math.ceil(hi * IVL_K), bound * IVL_K)}
 
 
-def project(res, c, k, p):
+def project(res, c, L, p):
     """result dictionary -> observation record (floats projected onto lattice rationals)"""
     base = {"hasy": p["hasy"], "hasw": p["hasw"],
             "wantrev": bool(p["entry"] == "histogram" or p["hasy"] or p["hasw"] or p["rev"])}
@@ -243,7 +300,7 @@ def project(res, c, k, p):
     if isinstance(res, Exception):
         o["err"] = type(res).__name__
         return o
-    S = scales(c, k)
+    S = scales(c, L)
     n, W = S["n"], S["W"]
     o["hist"] = [int(v) for v in res["hist"]]
     o["hasrev"] = "rev" in res
@@ -315,14 +372,14 @@ def same_dict(a, b):
     return True
 
 
-def run_variant(c, k, p):
-    res, frame_ok = raw_call(c, k, p, p["engine"])
+def run_variant(c, L, p):
+    res, frame_ok = raw_call(c, L, p, p["engine"])
     problems = [] if frame_ok else ["argument_modified"]
     if p["both"]:
-        other, _ = raw_call(c, k, p, "py" if p["engine"] == "c" else "c")
+        other, _ = raw_call(c, L, p, "py" if p["engine"] == "c" else "c")
         if not same_dict(res, other):
             problems.append("engines_differ")
-    return {"p": p, "o": project(res, c, k, p), "raw": raw_summary(res), "problems": problems}
+    return {"p": p, "o": project(res, c, L, p), "raw": raw_summary(res), "problems": problems}
 
 
 def run_case(job):
@@ -331,7 +388,9 @@ def run_case(job):
     if c["w"]:
         need_den(sum(c["w"]) ** 4, "total weight")
     need_den(len(c["x"]) ** 3, "array length")
-    return {"id": i, "c": c, "conc": k, "runs": [run_variant(c, k, p) for p in ps]}
+    L = lattice(c, k)
+    return {"id": i, "c": c, "conc": k, "lattice": [L["unit"], L["off"], L["yunit"], L["yoff"], L["wunit"]],
+            "runs": [run_variant(c, L, p) for p in ps]}
 
 
 # ---- signatures ----------------------------------------------------------------------------------
@@ -346,19 +405,35 @@ def signature(p, clause, c):
     return "%s|%s" % (p["entry"], clause if "|" in clause else "%s|%s" % (clause, struct_class(c)))
 
 
-def judge(ctx, recs, what, constants=None):
+def judge(ctx, recs, what, constants=None, _twin=False):
     big = len(recs) > 21000          # thorough-tier chunks: more, smaller TLC processes
     rejects = tracecheck.validate(ctx, "BinStatsTrace.tla",
                                   [{"id": r["id"], "c": r["c"], "obs": [u["o"] for u in r["runs"]]} for r in recs],
                                   what=what, constants=constants or {"StrictOneMember": STRICT},
                                   shard_size=3200 if big else 5000, max_shards=8 if big else 5, workers=2 if big else None)
     byid = {r["id"]: r for r in recs}
+    # a rejected case given in a non-native representation is re-run in the native one (same values, same lattice slot):
+    # clauses that then pass are representation dependent and get their own signature class
+    foreign = [rid for rid in sorted(rejects) if any(v != "f8" for v in byid[rid]["c"].get("rep", NATIVE).values())][:2000]
+    twin_fail = {}
+    if foreign and not _twin:
+        twins = [run_case((n + 1, dict(byid[rid]["c"], rep=dict(NATIVE)), byid[rid]["conc"], [u["p"] for u in byid[rid]["runs"]]))
+                 for n, rid in enumerate(foreign)]
+        saved = ctx.traces
+        trej = tracecheck.validate(ctx, "BinStatsTrace.tla", [{"id": r["id"], "c": r["c"], "obs": [u["o"] for u in r["runs"]]} for r in twins],
+                                   what=what + " [native twins of rejected foreign-representation cases]",
+                                   constants={"StrictOneMember": STRICT})
+        ctx.traces = saved
+        twin_fail = {rid: set(trej.get(n + 1, [])) for n, rid in enumerate(foreign)}
     for rid, failing in sorted(rejects.items()):
         r = byid[rid]
         for f in failing:
             ki, clause = f.split(":", 1)
             u = r["runs"][int(ki) - 1]
-            ctx.violation(signature(u["p"], clause, r["c"]),
+            sig = signature(u["p"], clause, r["c"])
+            if rid in twin_fail and f not in twin_fail[rid]:
+                sig += "|representation-dependent"
+            ctx.violation(sig,
                           "esutil.stat.%s result not allowed by BinStats.tla: clause %s" % (u["p"]["entry"], clause),
                           {"c": r["c"], "conc": r["conc"], "ps": [u["p"]], "observed": u["o"], "raw": u["raw"]})
     for r in recs:
@@ -373,8 +448,26 @@ def judge(ctx, recs, what, constants=None):
 # ---- larger seeded cases (code -> spec) -----------------------------------------------------------
 def seeded_cases(rng, n, maxlen):
     out = []
-    for _ in range(n):
+    for kk in range(n):
         weighted = rng.random() < 0.5
+        if kk % 8 in (0, 4):
+            # bin arithmetic with inexact reciprocals: equal-occupancy bins whose size has a reciprocal that rounds down
+            # (positions k*nperbin must still open bin k), and data exactly on the edges of such bin sizes
+            rep = {"x": rng.choice(REPS), "y": rng.choice(REPS), "w": "f8"}
+            if kk % 8 == 0:
+                b = 49 if maxlen < 60 or rng.random() < 0.5 else 98
+                ln = b + rng.randrange(1, 4) if rng.random() < 0.5 else min(2 * b + rng.randrange(0, 3), 101)
+                x = [rng.randrange(1, 13) for _ in range(ln)]
+                out.append({"x": x, "y": [rng.randrange(0, 13) for _ in range(ln)], "w": [], "mode": "nperbin", "b": b,
+                            "merge": rng.random() < 0.5, "hasmin": False, "min": 0, "hasmax": False, "max": 0, "rep": rep})
+            else:
+                b = rng.choice([3, 7, 49, 98, 103, 107])
+                ln = rng.choice([2, 5, 12, 17])
+                x = [1 + b * rng.randrange(0, 6) + rng.choice([0, 0, 0, 1, b - 1]) for _ in range(ln)]
+                hasmin = rng.random() < 0.3
+                out.append({"x": x, "y": [rng.randrange(0, 13) for _ in range(ln)], "w": [], "mode": "binsize", "b": b,
+                            "merge": False, "hasmin": hasmin, "min": 1 if hasmin else 0, "hasmax": False, "max": 0, "rep": rep})
+            continue
         ln = rng.choice([1, 2, 3, 5, 9, 14]) if weighted else rng.choice([1, 2, 5, 17, maxlen // 2, maxlen])
         nv = rng.choice([1, 2, 4, 12]) if weighted else rng.choice([1, 2, 4, 12, 40])
         x = [rng.randrange(1, nv + 1) for _ in range(ln)]
@@ -396,14 +489,15 @@ def seeded_cases(rng, n, maxlen):
         hasmin, hasmax = rng.random() < 0.3, rng.random() < 0.3
         out.append({"x": x, "y": y, "w": w, "mode": mode, "b": b, "merge": merge,
                     "hasmin": hasmin, "min": rng.randrange(0, nv + 2) if hasmin else 0,
-                    "hasmax": hasmax, "max": rng.randrange(0, nv + 2) if hasmax else 0})
+                    "hasmax": hasmax, "max": rng.randrange(0, nv + 2) if hasmax else 0,
+                    "rep": {"x": rng.choice(REPS), "y": rng.choice(REPS), "w": rng.choice(REPS)}})
     return out
 
 
 # ---- the check ------------------------------------------------------------------------------------------
 def run(ctx):
     B = BOUNDS[ctx.tier]
-    consts = dict(B, Kinds={"bins", "stats"}, FixedWhist=True, MergeVariant="code", DoExport=False, StrictOneMember=False)
+    consts = dict(B, Kinds={"bins", "stats", "reps"}, RepFull=not ctx.quick, FixedWhist=True, MergeVariant="code", DoExport=False, StrictOneMember=False)
     # 1. design level: the mechanisms refine the property, the definitions are sane, no overflow - the whole space.
     #    Per-action coverage (vacuity guard) costs 3x: in the thorough tier it is taken on the quick bounds and the
     #    large space is explored without it (its state count is checked against the number of cases instead).
@@ -412,7 +506,7 @@ def run(ctx):
                      cfg_text=cfg(constants=consts, invariants=INVARIANTS), workers=16, require=ACTIONS, timeout=3000)
     else:
         ctx.tlc("BinStatsMC.tla", what="mechanisms refine property (quick bounds, action coverage)",
-                cfg_text=cfg(constants=dict(consts, **BOUNDS["quick"]), invariants=INVARIANTS), workers=16, require=ACTIONS, timeout=3000)
+                cfg_text=cfg(constants=dict(consts, RepFull=False, **BOUNDS["quick"]), invariants=INVARIANTS), workers=16, require=ACTIONS, timeout=3000)
         r1 = ctx.tlc("BinStatsMC.tla", what="mechanisms refine property + definitions sane (exhaustive)",
                      cfg_text=cfg(constants=consts, invariants=INVARIANTS), workers=16, coverage=False, timeout=3000)
     # 1b. non-vacuity of MechRefines: deviating mechanisms must violate it
@@ -439,7 +533,7 @@ def run(ctx):
     if r1.distinct < 3 * len(cases):          # every runnable case adds >= 3 mechanism states
         raise MachineryError("mechanism run too small: %d states for %d cases" % (r1.distinct, len(cases)))
     # replay + judge in chunks (a record carries every projected statistic of every bin: keep memory bounded)
-    census, first = {}, {}
+    census, first, reps_seen = {}, {}, set()
 
     def batch(jobs, what):
         chunk = 25000
@@ -447,6 +541,7 @@ def run(ctx):
             recs = pmap(run_case, jobs[lo:lo + chunk])
             for r in recs:
                 ctx.count(r["c"], n=len(r["runs"]))
+                reps_seen.add(tuple(r["c"].get("rep", NATIVE)[a] for a in "xyw"))
             rej = judge(ctx, recs, "%s [%d..%d]" % (what, lo + 1, lo + len(recs)))
             structure_census(recs, census)
             if not first:
@@ -456,6 +551,10 @@ def run(ctx):
         return len(jobs)
 
     nrec = batch([(i, cse, i % len(CONC)) for i, cse in enumerate(cases, 1)], "judge replayed cases (BinStatsTrace)")
+    pairs = {(p, q, t[p], t[q]) for t in reps_seen for p in range(3) for q in range(p + 1, 3)}
+    if len(pairs) != 3 * len(REPS) ** 2:
+        raise MachineryError("representation design not covered: %d of %d pairs" % (len(pairs), 3 * len(REPS) ** 2))
+    nreps_exported = len(reps_seen)
     # 3. larger seeded cases (code -> spec)
     nrand, maxlen = (600, 40) if ctx.quick else (12000, 60)
     sc = seeded_cases(random.Random(ctx.seed), nrand, maxlen)
@@ -468,7 +567,11 @@ def run(ctx):
         # the census is taken from what the code returned: only meaningful (and only enforced) on a run without violations
         if not census.get(need) and not ctx.violations:
             raise MachineryError("vacuous run: no case with %s (%s)" % (need, census))
-    ctx.rule = ("every data array of length 1..%d over %d lattice values x every bin specification (binsize %s | nbin %s | nperbin %s x "
+    ctx.rule = ("[representations] every case is handed to the code in one representation triple (x, y, weights) out of %d^3 - "
+                "float64/float32/int32/int64/uint8, non-native byte order, python list, strided / reversed / packed-record-field view, "
+                "0-d or tuple of numpy scalars - following a pairwise-covering design (169 triples%s) enumerated by BinStatsMC.tla; "
+                % (len(REPS), "" if ctx.quick else "; family 'reps': the full product") +
+                "every data array of length 1..%d over %d lattice values x every bin specification (binsize %s | nbin %s | nperbin %s x "
                 "mergelast on/off) x min in %s or absent x max in %s or absent, with second variable and weights derived from the data; "
                 "every (x, y, w) triple of length 1..%d over %s x %s x %s under 4 bin specifications - all exported from BinStatsMC.tla, "
                 "each concretised on one of %d dyadic lattices (6 of them with offsets up to 2^40 on x and/or y) and run through histogram(more=True) [both engines], "
@@ -479,7 +582,8 @@ def run(ctx):
                  sorted(B["MaxVals"]), B["TMaxLen"], sorted(B["TVals"]), sorted(B["TYVals"]), sorted(B["TWts"]), len(CONC), nrand, maxlen))
     ctx.exhaustive = True
     ctx.note(bounds={k: sorted(v) if isinstance(v, set) else v for k, v in B.items()}, exported_cases=nmode,
-             records=nrec, seeded_records=nseed, structure_census=census, strict_one_member_reading=STRICT)
+             records=nrec, seeded_records=nseed, structure_census=census, strict_one_member_reading=STRICT,
+             representations=REPS, representation_triples_exported=nreps_exported)
     ctx.assumptions = [
         "dyadic lattice: data (x+off)*2^k, weights w*2^j, total weight <= 32; expected values are exact rationals with bounded denominators",
         "large-offset lattices (|off| up to 2^40 lattice units on x and/or y, 6 of the %d concretisations): value-type outputs within "
@@ -495,6 +599,8 @@ def run(ctx):
         "empty bins: mean = -9999 (documented); other statistics -9999 or NaN; whist 0 or -9999",
         "equal-occupancy bins: order among equal values is not prescribed; no centre is defined for them",
         "non-positive weights and non-dyadic bin sizes off the lattice are outside the check",
+        "representations: a variable whose representation cannot hold its lattice values exactly (float32 / integers / uint8 with a "
+        "fractional unit, negative or 2^40 offset) is put on the plain integer lattice instead; the value handed over is always exact",
     ]
     ctx.trusted_base = ctx.trusted_base + ["fractions.Fraction arithmetic and Fraction.limit_denominator in the float->lattice projection"]
 
